@@ -142,6 +142,15 @@ CLAIMS = {
         "per-setup gains) is a numerical theorem and is checked only by a bounded stand-in on noise-free multi-setup data through MultiSetup_PreGER (labelled bounded, not counted as proved).",
    note="Mixed level: proof for the split clause, bounded for the identification clause.",
    design="6 (C03)", technique="contract-based deductive verification (pyvc AST->VC, z3) for the split; bounded native stand-in for the identification theorem"),
+ "C17": dict(
+   text="Factor clause only. Deductive proof from the real source of ssi.build_hank(method='cov_mm', calc_unc=True), with a loop invariant over a symbolic number of data blocks, that the "
+        "covariance factor's column k is exactly (stack(H_k') - stack(H)) / sqrt(nb (nb - 1)) with H_k' the lagged-product sum over data block k (same lags and window offsets as the Hankel "
+        "matrix, block [k Nb, (k+1) Nb) clamped to the available columns) - in the form the code computes today - and, as separate obligations, the property's two demands on that form: block "
+        "estimates on the scale of the full estimate, and column-stacked vectorisation. Both demands FAIL on the unchanged tree (open findings, replayed natively); any other change to the "
+        "factor fails the 'current form' obligation. The main clause (reported variance = first-order propagation of the factor) is a finite-difference statement about the floating-point "
+        "pipeline: bounded stand-in only, which also fails today (open finding).",
+   note="Partial claim with three open findings (known_findings.jsonl); the propagation itself is not under any contract.",
+   design="A.6 / 6 (C17)", technique="contract-based deductive verification of the factor (pyvc AST->VC, z3: lazy sums over data blocks, structured index splitting, loop invariant); bounded finite-difference stand-in for the propagation"),
 }
 NOT_APPLICABLE = {
  "C07": "accuracy tolerance (2.5 % / 15 %) of a floating-point FFT/peak-picking/regression pipeline: no contract over exact reals can state or discharge it (DESIGN.md section 8); its scale-invariance clause is covered under C08",
